@@ -415,3 +415,49 @@ def program_size(prog):
     for f in prog['funcs'].values():
         n += len(list(iter_stmts(f['body'])))
     return n
+
+
+# --------------------------------------------------------------------------------------------------
+# par: run blocks as tasks in threads on the same builder (C08 / C09 / C17)
+# --------------------------------------------------------------------------------------------------
+
+def _stmt_par(ctx, b, inv, fname, args, s, obs, filename):
+    blocks = s[1]
+    task_obs = [[] for _ in blocks]
+
+    def make_task(i):
+        def task():
+            run_block(ctx, b, '%s#t%d' % (inv, i), fname, args, blocks[i], task_obs[i], filename)
+        return task
+
+    if ctx.mode == 'model':
+        # sequential reference: task order; the first exception (by task index) propagates after all ran
+        first_exc = None
+        for i in range(len(blocks)):
+            try:
+                make_task(i)()
+            except Exception as e:
+                if first_exc is None:
+                    first_exc = e
+        results_exc = first_exc
+    else:
+        from . import sched
+        sc = sched.Sched(ctx.extra.get('sched_spec'))
+        results = sc.run_all([make_task(i) for i in range(len(blocks))])
+        ctx.extra.setdefault('sched_runs', []).append({'decisions': sc.n, 'switches': len(sc.switches),
+                                                       'landed': sc.preempt_landed[:8], 'deadlock': sc.deadlocked,
+                                                       'labels': sc.labels})
+        results_exc = None
+        for r in results:
+            if r is not None and r[0] == 'exc':
+                if isinstance(r[1], sched.Deadlock) or sc.deadlocked:
+                    ctx.extra['deadlock'] = True
+                if results_exc is None:
+                    results_exc = r[1]
+    # tasks are independent by construction: their observations are compared as a multiset
+    obs.append(['par', sorted(task_obs, key=lambda o: json.dumps(o, sort_keys=True, default=str))])
+    if results_exc is not None:
+        raise results_exc
+
+
+EXT_STATEMENTS['par'] = _stmt_par
